@@ -371,8 +371,10 @@ class Fn:
         if v.is_arr():
             self.lets.append(f"let {name} := (fun k : nat => {v.elem('k')}) in")
             self.env[name] = Val(v.ty, length=v.length, elem=lambda k, name=name: f"({name} {k})")
-        elif v.ty == "nat" and v.term.isidentifier():
-            self.env[name] = Val("nat", v.term)        # N = len(signal): an alias, so that lengths still match syntactically
+        elif v.ty == "nat":
+            # N = len(signal), split = (npts + 1) // 2: an alias, so that lengths still match syntactically and the
+            # length obligations stay closed terms over the parameters
+            self.env[name] = Val("nat", v.term)
         else:
             ty = "nat" if v.ty == "nat_lit" else v.ty
             term = f"{v.term}%nat" if v.ty == "nat_lit" else v.term
@@ -491,6 +493,201 @@ class Fn:
             self.env[var] = Val(ty, var)
 
 
+# ------------------------------------------------------------------------------------------------------------------
+# Source-level normalisation before translation: module-level constants are substituted, calls to small module-level
+# helper functions are inlined (parameters replaced by the argument expressions, locals renamed), `if` on a literal is
+# folded and tuple literals in membership tests are read as lists.  The translated kernels are pure numeric code, so
+# substituting an argument expression for a parameter preserves meaning; anything outside this shape is left alone and
+# the translation then fails closed as before.  Effect: extracting a helper, naming a constant or passing a literal flag
+# regenerates (up to let-bound names) the same Gallina text, and the proofs in coq/Numeric still apply.
+class Inliner:
+    def __init__(self, tree, exclude):
+        self.funcs = {n.name: n for n in tree.body if isinstance(n, ast.FunctionDef) and n.name not in exclude}
+        self.consts = {}
+        for n in tree.body:
+            if isinstance(n, ast.Assign) and len(n.targets) == 1 and isinstance(n.targets[0], ast.Name) and self.const_expr(n.value):
+                self.consts[n.targets[0].id] = n.value
+        self.k = 0
+        self.depth = 0
+        self.aliases = {}
+
+    def const_expr(self, e):
+        if isinstance(e, ast.Constant):
+            return True
+        if isinstance(e, (ast.Tuple, ast.List)):
+            return all(self.const_expr(x) for x in e.elts)
+        if isinstance(e, ast.BinOp):
+            return self.const_expr(e.left) and self.const_expr(e.right)
+        if isinstance(e, ast.UnaryOp):
+            return self.const_expr(e.operand)
+        if isinstance(e, ast.Attribute):
+            return isinstance(e.value, ast.Name) and e.value.id == "np" and e.attr == "pi"
+        if isinstance(e, ast.Name):
+            return e.id in self.consts
+        return False
+
+    @staticmethod
+    def stored_names(nodes):
+        out = set()
+        for st in nodes:
+            for n in ast.walk(st):
+                if isinstance(n, ast.Name) and isinstance(n.ctx, (ast.Store, ast.Del)):
+                    out.add(n.id)
+        return out
+
+    def run(self, fdef):
+        import copy
+        fdef = copy.deepcopy(fdef)
+        self.locals = {a.arg for a in fdef.args.args} | self.stored_names(fdef.body)
+        fdef.body = self.stmts(fdef.body)
+        return ast.fix_missing_locations(fdef)
+
+    # ---- expressions: constants, tuples in membership tests, helper calls (collected into `pre`) ----
+    def expr(self, e, pre):
+        me = self
+
+        class T(ast.NodeTransformer):
+            def visit_Name(self, n):
+                if isinstance(n.ctx, ast.Load) and n.id in me.aliases:
+                    import copy
+                    return copy.deepcopy(me.aliases[n.id])
+                if isinstance(n.ctx, ast.Load) and n.id in me.consts and n.id not in me.locals:
+                    import copy
+                    return self.visit(copy.deepcopy(me.consts[n.id]))
+                return n
+
+            def visit_Compare(self, n):
+                self.generic_visit(n)
+                if len(n.ops) == 1 and isinstance(n.ops[0], (ast.In, ast.NotIn)) and isinstance(n.comparators[0], ast.Tuple):
+                    n.comparators[0] = ast.List(elts=n.comparators[0].elts, ctx=ast.Load())
+                return n
+
+            def visit_IfExp(self, n):
+                self.generic_visit(n)
+                if isinstance(n.test, ast.Constant):
+                    return n.body if n.test.value else n.orelse
+                return n
+
+            def visit_Call(self, n):
+                self.generic_visit(n)
+                if isinstance(n.func, ast.Name) and n.func.id in me.funcs and n.func.id not in me.locals:
+                    stmts, ret = me.expand(n)
+                    pre.extend(stmts)
+                    return ret
+                return n
+        return T().visit(e)
+
+    def expand(self, call):
+        import copy
+        g = self.funcs[call.func.id]
+        if self.depth > 6:
+            raise Unsupported(f"helper {g.name}: inlining too deep (recursion?)")
+        if g.decorator_list:
+            raise Unsupported(f"helper {g.name}: decorated helpers (caches, ...) are not inlined")
+        a = g.args
+        if a.vararg or a.kwarg or a.kwonlyargs or a.posonlyargs:
+            raise Unsupported(f"helper {g.name}: unsupported parameter kinds")
+        names = [x.arg for x in a.args]
+        bind = {}
+        for nm, arg in zip(names, call.args):
+            bind[nm] = arg
+        if len(call.args) > len(names):
+            raise Unsupported(f"helper {g.name}: too many arguments")
+        for kw in call.keywords:
+            if kw.arg is None or kw.arg not in names or kw.arg in bind:
+                raise Unsupported(f"helper {g.name}: keyword {kw.arg}")
+            bind[kw.arg] = kw.value
+        for nm, d in zip(names[len(names) - len(a.defaults):], a.defaults):
+            bind.setdefault(nm, d)
+        if set(bind) != set(names):
+            raise Unsupported(f"helper {g.name}: missing arguments")
+        body = [st for st in g.body if not (isinstance(st, ast.Expr) and isinstance(st.value, ast.Constant) and isinstance(st.value.value, str))]
+        for st in body:
+            for n in ast.walk(st):
+                if isinstance(n, (ast.FunctionDef, ast.Lambda, ast.For, ast.While, ast.Try, ast.With, ast.Global, ast.Nonlocal)):
+                    raise Unsupported(f"helper {g.name}: {type(n).__name__} in a helper is not inlined")
+        rets = [n for st in body for n in ast.walk(st) if isinstance(n, ast.Return)]
+        if len(rets) > 1 or (rets and body[-1] is not rets[0]):
+            raise Unsupported(f"helper {g.name}: only a single trailing return is inlined")
+        self.k += 1
+        tag = f"{g.name.strip('_')}{self.k}_"
+        stored = self.stored_names(body)
+        rename = {nm: tag + nm for nm in stored}
+        pre = []
+        for nm in names:
+            if nm in stored:             # a parameter the helper reassigns: it becomes a local initialised with the argument
+                pre.append(ast.Assign(targets=[ast.Name(id=rename[nm], ctx=ast.Store())], value=copy.deepcopy(bind[nm]), lineno=call.lineno))
+
+        class S(ast.NodeTransformer):
+            def visit_Name(self, n):
+                if n.id in rename:
+                    return ast.copy_location(ast.Name(id=rename[n.id], ctx=n.ctx), n)
+                if n.id in bind and isinstance(n.ctx, ast.Load):
+                    return copy.deepcopy(bind[n.id])
+                return n
+        new_body = [S().visit(copy.deepcopy(st)) for st in body]
+        saved = self.locals
+        self.locals = self.locals | set(rename.values())
+        self.depth += 1
+        try:
+            ret = ast.Constant(value=None)
+            if rets:
+                last = new_body.pop()
+                out = self.stmts(new_body)
+                inner = []
+                ret = self.expr(last.value, inner) if last.value is not None else ast.Constant(value=None)
+                out += inner
+            else:
+                out = self.stmts(new_body)
+        finally:
+            self.depth -= 1
+            self.locals = saved
+        self.locals = self.locals | set(rename.values())
+        return pre + out, ret
+
+    # ---- statements ----
+    def stmts(self, body):
+        out = []
+        for st in body:
+            out += self.stmt(st)
+        return out
+
+    def stmt(self, st):
+        pre = []
+        if isinstance(st, ast.Expr):
+            if isinstance(st.value, ast.Call) and isinstance(st.value.func, ast.Name) and st.value.func.id in self.funcs \
+                    and st.value.func.id not in self.locals:
+                stmts, _ret = self.expand(st.value)          # a procedure call (validation helper): its statements, result dropped
+                return stmts
+            return [st]
+        if isinstance(st, ast.Assign) and len(st.targets) == 1 and isinstance(st.targets[0], ast.Name):
+            v = st.value
+            # exp = np.exp: a local alias of a numpy function is substituted where it is used
+            if isinstance(v, ast.Attribute) and isinstance(v.value, ast.Name) and v.value.id == "np" and v.attr != "pi":
+                self.aliases[st.targets[0].id] = v
+                return []
+            # x = a if c else b   is read as   if c: x = a  else: x = b
+            if isinstance(v, ast.IfExp):
+                import copy
+                t = st.targets[0]
+                new = ast.If(test=v.test,
+                             body=[ast.Assign(targets=[copy.deepcopy(t)], value=v.body, lineno=st.lineno)],
+                             orelse=[ast.Assign(targets=[copy.deepcopy(t)], value=v.orelse, lineno=st.lineno)])
+                return self.stmt(ast.copy_location(new, st))
+        if isinstance(st, (ast.Assign, ast.AugAssign, ast.AnnAssign, ast.Return)):
+            if st.value is not None:
+                st.value = self.expr(st.value, pre)
+            return pre + [st]
+        if isinstance(st, ast.If):
+            st.test = self.expr(st.test, pre)
+            if isinstance(st.test, ast.Constant):
+                return pre + self.stmts(st.body if st.test.value else st.orelse)
+            st.body = self.stmts(st.body) or [ast.Pass()]
+            st.orelse = self.stmts(st.orelse)
+            return pre + [st]
+        return [st]
+
+
 def is_log(st):
     v = st.value
     return isinstance(v, ast.Call) and isinstance(v.func, ast.Attribute) and isinstance(v.func.value, ast.Name) and v.func.value.id == "log"
@@ -510,8 +707,10 @@ def find_function(tree, path):
     return node
 
 
-def translate(fdef, cname, sig, ret, known, array_lens=None, opaque=None):
+def translate(fdef, cname, sig, ret, known, array_lens=None, opaque=None, tree=None, exclude=()):
     """sig: [(param, type)], ret: (type, length param or None). Returns (text, section variables)."""
+    if tree is not None:
+        fdef = Inliner(tree, set(exclude) | {k for k in known if "::" not in k} | {fdef.name}).run(fdef)
     pnames = [a.arg for a in fdef.args.args]
     if pnames != [p for p, _ in sig]:
         raise Unsupported(f"{cname}: signature changed: {pnames} (expected {[p for p, _ in sig]})")
@@ -591,7 +790,7 @@ def gen_pulseatoms():
     parts.append("Section PulseAtoms.\nContext {K : Type}.   (* the opaque keyword dict of arb_func *)\n")
     for name, sig in sigs.items():
         fdef = find_function(tree, ["PulseAtoms", name])
-        text, sv = translate(fdef, "PA_" + name, sig, ("arrR", "npts"), {})
+        text, sv = translate(fdef, "PA_" + name, sig, ("arrR", "npts"), {}, tree=tree)
         if sv:
             raise Unsupported(f"PulseAtoms.{name} uses {sv}")
         parts.append(text)
@@ -611,19 +810,20 @@ def gen_ripasso():
                  "Variable round6 : R -> R.\n")
     sig_rc = [("SR", "R"), ("npts", "nat"), ("f_cut", "R"), ("kind", "str"), ("order", "Z"), ("DCgain", "R")]
     fdef = find_function(tree, ["_rcFilter"])
-    text, _ = translate(fdef, "_rcFilter", sig_rc, ("arrC", "npts"), known)
+    top = {"_rcFilter", "applyRCFilter", "applyInverseRCFilter", "applyCustomTransferFunction"}
+    text, _ = translate(fdef, "_rcFilter", sig_rc, ("arrC", "npts"), known, tree=tree, exclude=top)
     parts.append(text)
     known["_rcFilter"] = sig_rc
     known["_rcFilter::ret"] = ("arrC", "npts")
     sig_ap = [("signal", "arrR"), ("SR", "R"), ("kind", "str"), ("f_cut", "R"), ("order", "Z"), ("DCgain", "R")]
     for name in ("applyRCFilter", "applyInverseRCFilter"):
         fdef = find_function(tree, [name])
-        text, _ = translate(fdef, name, sig_ap, ("arrR", None), known, array_lens={"signal": "signal_len"})
+        text, _ = translate(fdef, name, sig_ap, ("arrR", None), known, array_lens={"signal": "signal_len"}, tree=tree, exclude=top)
         parts.append(text)
     sig_ct = [("signal", "arrR"), ("SR", "R"), ("tf_freqs", "arrR"), ("tf_amp", "arrR"), ("invert", "bool")]
     fdef = find_function(tree, ["applyCustomTransferFunction"])
     text, _ = translate(fdef, "applyCustomTransferFunction", sig_ct, ("arrR", None), known,
-                        array_lens={"signal": "signal_len", "tf_freqs": "tf_len", "tf_amp": "tf_len"})
+                        array_lens={"signal": "signal_len", "tf_freqs": "tf_len", "tf_amp": "tf_len"}, tree=tree, exclude=top)
     parts.append(text)
     parts.append("End Ripasso.")
     return "\n\n".join(parts) + "\n"
